@@ -13,6 +13,7 @@ def check(ctx):
     core4.library_ordering_rule(ctx, "C10")
     core.cg_priority_edges(ctx, "C10")
     core.cg_priority_passthrough(ctx, "C10")
+    core.cg_relation_lifting(ctx, "C10")  # every relation (also between exclusive transactions) reaches add_edge: the priority edge orders ready dependencies
     core.mgr_relation_copy(ctx, "C10")
     core2.mgr_ready_dependencies(ctx, "C10")
     core2.mgr_runnable(ctx, "C10")
